@@ -280,6 +280,10 @@ def run(ctx):
                 "acceptTO/completeTO/forgets/disabled on the observed call log + event times (same-instant orders that are not observable never fire a rule) and validates "
                 "the observed history as a behaviour of Mon; non-trivial = distinct (max, #connect, #restart, #failures, #ctx-errors, closers, saw-fin, restart-complete, "
                 "which timeouts/backoff enabled) classes")
+    # the monitor composed with the manager it supervises: real manager + real monitor, doubles only at network and transport (spec/MonMgr.tla)
+    monmgr_stage(ctx)
+    ctx.rule += ("; MonMgr.tla: the monitor composed with the REAL manager (whose restart re-enters the monitor and whose close-with-error fails the channel): restart cycles under every "
+                 "pattern of failing restart requests x bound x data progress, accept/complete timeouts end to end (C14.givesUp/retried/bounded/closeOnce/noSpuriousClose/monitoredIffAlive)")
     ctx.assumptions += [
         "maximal progress: goroutines take no time compared with a tick (synctest semantics); races appear as same-instant interleavings, explored exhaustively in Mon",
         "the monitor-API double honours ctx (a call entered with a cancelled context fails at once); CloseDataTransferChannelWithError returns at once (F2 is C09's)",
@@ -398,3 +402,64 @@ def run(ctx):
         vlib.tlc_must_pass(res, nm)
         ctx.add_model(res)
     ctx.exhaustive = True
+
+
+# ---- the monitor composed with the manager it supervises (spec/MonMgr.tla, harness mgrx/TestMonMgr) --------------------------
+def monmgr_stage(ctx, prefixes=("C14.",)):
+    gen = stages.write_cfg(ctx, "monmgr-gen.cfg", 'CONSTANTS\n Mode = "gen"\n ObsFile = "none.ndjson"\n OutFile = "monmgr-cases.ndjson"\n')
+    res = ctx.tlc("MonMgr", gen, workers=1, timeout=300)
+    vlib.tlc_must_pass(res, "MonMgr tabulation")
+    rows = vlib.read_ndjson(os.path.join(res.dir, "monmgr-cases.ndjson"))
+    if not rows:
+        raise Inconclusive("MonMgr produced no scenarios")
+    rows.sort(key=lambda r: json.dumps(r["scn"], sort_keys=True))
+    if ctx.quick():
+        timed = [r for r in rows if r["scn"]["kind"] != "restart"]
+        rest = [r for r in rows if r["scn"]["kind"] == "restart"]
+        ctx.rng.shuffle(rest)
+        # always: persistent failure (gives up), transient failure (retried), success at once - both directions
+        core = [r for r in rest if r["scn"]["stims"] == ["err"] and r["scn"]["script"] in ([True] * 4, [True, False, False, False], [False] * 4) and r["scn"]["max"] in (2, 3)]
+        rows = timed + core + [r for r in rest if r not in core][:110]
+    cases = [{"case": "mm%d" % i, "scn": r["scn"]} for i, r in enumerate(rows)]
+    cp = ctx.path("monmgr-run.ndjson")
+    vlib.write_ndjson(cp, cases)
+    b = ctx.go_bin("mgrx")
+    obs = ctx.path("monmgr-obs.ndjson")
+    ctx.must_run_go(b, "TestMonMgr", env={"VERIF_CASES": cp, "VERIF_OUT": obs}, timeout=1500)
+    orows = vlib.read_ndjson(obs)
+    if len(orows) != len(cases):
+        raise Inconclusive("TestMonMgr wrote %d observations for %d scenarios" % (len(orows), len(cases)))
+    jc = stages.write_cfg(ctx, "monmgr-judge.cfg", 'CONSTANTS\n Mode = "judge"\n ObsFile = "monmgr-obs.ndjson"\n OutFile = "monmgr-verdicts.ndjson"\n')
+    res2 = ctx.tlc("MonMgr", jc, workers=1, timeout=600, extra_files=[obs])
+    vlib.tlc_must_pass(res2, "MonMgr judge")
+    m = re.search(r'<<"@@judged", (\d+)>>', res2.out)
+    if not m or int(m.group(1)) != len(orows):
+        raise Inconclusive("MonMgr judge saw %s of %d observations" % (m.group(1) if m else "?", len(orows)))
+    vp = os.path.join(res2.dir, "monmgr-verdicts.ndjson")
+    verdicts = vlib.read_ndjson(vp) if os.path.exists(vp) else []
+    byc = {o["case"]: o for o in orows}
+    herr = 0
+    for v in verdicts:
+        o = byc[v["case"]]
+        if v["rule"] == "harness":
+            herr += 1
+            continue
+        if v["rule"] == "conf":
+            ctx.drift.append({"case": v["case"], "note": "real manager + monitor deviate from MonMgr.tla", "scn": o["scn"], "got": {k: o[k] for k in ("restarts", "closed", "final", "monitored")}})
+            continue
+        if not any(v["rule"].startswith(p) for p in prefixes):
+            continue
+        s = o["scn"]
+        ctx.violation({"rule": v["rule"], "src": "monitor+manager", "kind": s["kind"], "dir": s["dir"]},
+                      "%s violated by the real manager with its real channel monitor (%s %s, max=%d, stimuli=%s, send outcomes(fail)=%s, timeout=%d, at=%d): restart requests %s, closed=%s, final=%s, error events=%d, cancel messages=%d, still monitored=%s"
+                      % (v["rule"], s["dir"], s["kind"], s["max"], s["stims"], s["script"], s["timeout"], s["at"], o["restarts"], o["closed"], o["final"], o["errorEvents"], o["cancelMsgs"], o["monitored"]), detail=o)
+    if herr > max(2, len(orows) // 20):
+        raise Inconclusive("TestMonMgr: %d scenarios failed in the harness: %s" % (herr, [o["err"] for o in orows if o["err"]][:3]))
+    for o in orows:
+        ctx.traces += 1
+        ctx.evaluations += 1 + len(o["scn"]["stims"])
+        ctx.distinct.add(("monmgr", o["scn"]["kind"], o["scn"]["dir"], o["scn"]["max"], len(o["restarts"]), o["closed"], o["final"]))
+    ctx.extra["monitor_with_manager"] = {"scenarios": len(orows), "harness_errors": herr, "gave_up": sum(1 for o in orows if o["closed"]), "retried": sum(1 for o in orows if len(o["restarts"]) > 1)}
+    for o in orows[:1]:
+        ctx.sample({"kind": "monitor+manager", "scn": o["scn"], "restarts": o["restarts"], "closed": o["closed"], "final": o["final"], "monitored": o["monitored"]})
+    return len(orows)
